@@ -434,6 +434,19 @@ def curated_special():
             out.append(('same-pos-hash-equal-alt-%s-%s' % (htag, ctag), [
                 ('rule', 'start', None, ('alt', [('seq', [('call', 'K', [T, mk(v1)]), ('str', '!')]), ('call', 'K', [T, mk(v2)])])),
                 ('rule', 'K', ['p', 'v'], ('seq', [('ref', 'p'), ('py', "('k', v)")]))]))
+    # the same literal handed to a template at several call sites of one rule, the textually first site
+    # in a part that may be skipped (another alternative, an option, a repetition)
+    for ltag, lit in (('str', ('str', 'a')), ('str2', ('str', 'ab')), ('regex', ('re', 'a', False))):
+        Wl = ('call', 'W', [lit])
+        X = lambda c: ('right', ('str', c), Wl)
+        for stag, body in (('alt', ('alt', [X('x'), X('y'), Wl])),
+                           ('opt', ('seq', [('opt', X('x')), Wl])),
+                           ('star', ('seq', [('star', X('x')), Wl, ('opt', X('y'))])),
+                           ('loop', ('star', ('alt', [X('x'), Wl]))),
+                           ('lookahead', ('seq', [('expectnot', X('x')), ('opt', ('str', 'y')), Wl]))):
+            out.append(('same-literal-sites-%s-%s' % (ltag, stag), [
+                ('rule', 'start', None, body),
+                ('rule', 'W', ['p'], ('seq', [('ref', 'p'), ('opt', ('str', '!'))]))]))
     # bare bound names as arguments: let, field, parameter
     out.append(('bound-let', [
         ('rule', 'start', None, ('let', 'q', T, ('seq', [('call', 'V', [('ref', 'q')]), ('call', 'V', [('py', 'q + q')])]))),
